@@ -13,7 +13,7 @@ LEVEL = "exploration"
 TERMS = ["2", "-3", "0.5", "x", "y", "2x", "-3x", "x^2", "2x^2", "3y", "-x", "y^2", "4x^3", "x^0", "0"]
 # terms for the like-relation: products of several variables included (the relation compares variable lists)
 REL_TERMS = TERMS + ["x * y", "y * x", "x * x", "2x * y", "x * y * z", "x^2 * y", "x * 2", "3 * 4", "x / y", "-(x * y)", "x * y^2"]
-COEFS = [None, 1, 2, -3, 0.5, 0, -1, 12, -2.5, 2.0, 9, 15]
+COEFS = [None, 1, 2, -3, 0.5, 0, -1, 12, -2.5, 2.0, 9, 15, 1.0000000002, 0.9999999999, -1.0000000001]
 VARS = [None, "x", "y"]
 EXPS = [None, 2, 0, -1, 0.5, 1, 3, 2.0]
 
@@ -178,6 +178,86 @@ def check_predicates(tree):
     return res
 
 
+def _pred_view(tree):
+    """what the term predicates say about a tree, as plain data"""
+    from mathy_core import util as U
+
+    def safe(fn, *a):
+        try:
+            r = fn(*a)
+        except Exception as e:  # noqa
+            return "raise:" + type(e).__name__
+        if isinstance(r, list):
+            return [SG.sig(x) if hasattr(x, "left") else repr(x) for x in r] if r and hasattr(r[0], "left") else repr(r)
+        if hasattr(r, "variables"):
+            return (tuple(r.coefficients), tuple(r.variables), r.exponent)
+        if hasattr(r, "_fields"):
+            return tuple(r)
+        return r
+
+    view = {"has_like_terms": safe(U.has_like_terms, tree), "is_simple_term": safe(U.is_simple_term, tree),
+            "is_preferred_term_form": safe(U.is_preferred_term_form, tree), "get_terms": safe(U.get_terms, tree)}
+    nodes = RW.inorder(tree)
+    view["get_term"] = [safe(U.get_term, n) for n in nodes]
+    view["get_term_ex"] = [safe(U.get_term_ex, n) for n in nodes]
+    view["like_self"] = [safe(U.terms_are_like, n, n) for n in nodes[:6]]
+    return view
+
+
+def check_predicates_after_rewrites(text):
+    """The predicates describe the CURRENT tree: ask them, rewrite the live tree in place (one and two steps),
+    ask again - the answers must be those given for an identical freshly built tree."""
+    out = []
+    try:
+        probe = RW.parse(text)
+    except Exception:  # noqa
+        return out
+    if SG.sig(probe)[0] == "=":
+        return out
+
+    def applicable(t):
+        res = []
+        for cname, rule in RW.configs():
+            for i, n in enumerate(RW.inorder(t)):
+                try:
+                    if rule.can_apply_to(n):
+                        res.append((cname, i))
+                except Exception:  # noqa
+                    pass
+        return res
+
+    def play(trace):
+        RW.reset_configs()
+        t = RW.parse(text).clone()
+        _pred_view(t)
+        for cname, i in trace:
+            t = RW.get_root(RW.config(cname).apply_to(RW.inorder(t)[i]).result)
+            v = _pred_view(t)
+        return t, v
+
+    for t1 in applicable(probe):
+        try:
+            mid, v1 = play([t1])
+        except Exception:  # noqa
+            continue
+        traces = [[t1]] + [[t1, t2] for t2 in applicable(mid)[:12]]
+        for tr in traces:
+            try:
+                live, got = play(tr)
+                s = SG.sig(live)
+                if SG.arity_problems(s):
+                    continue
+                want = _pred_view(SG.build(s))
+            except Exception:  # noqa
+                continue
+            for k in want:
+                if got[k] != want[k]:
+                    out.append((f"{k}-stale-after-in-place-rewrite", f"{text!r} after {tr}: live tree {SG.show(s)} answers {str(got[k])[:100]}, "
+                                f"an identical fresh tree answers {str(want[k])[:100]}"))
+                    return out
+    return out
+
+
 def check_like_relation(ta, tb):
     from mathy_core.util import terms_are_like
 
@@ -203,6 +283,7 @@ def check_like_relation(ta, tb):
 
 _MS = []
 _TEXTS = []
+_HTEXTS = []
 
 
 def _work(task):
@@ -240,6 +321,8 @@ def _work(task):
         # semiprimes and prime powers far above the enumerated range (trial division up to 10^5 at most)
         primes = [1009, 1013, 10007, 10009, 99989, 99991]
         big = [p * q for p in primes for q in primes if p <= q] + [2 ** 20, 3 ** 12, 2 ** 10 * 1009, 6 * 10007 * 5]
+        small_primes = [p for p in range(2, 1000) if all(p % d for d in range(2, int(p ** 0.5) + 1))]
+        big += [p * p for p in small_primes] + [p * q for p, q in zip(small_primes, small_primes[1:])]
         for n in big:
             acc.count("factor_tables")
             f = None
@@ -266,6 +349,11 @@ def _work(task):
             acc.count("factor_tables")
             for k, d in check_factor(n):
                 acc.violation(f"{k}|n={n}", {"kind": "factor", "n": n}, d)
+    elif kind == "history":
+        for i in range(task[1], task[2]):
+            acc.count("predicate_history_texts")
+            for k, d in check_predicates_after_rewrites(_HTEXTS[i]):
+                acc.violation(k, {"kind": "history", "text": _HTEXTS[i]}, d)
     else:
         for i in range(task[1], task[2]):
             try:
@@ -296,6 +384,9 @@ def run(tier, seed):
     tasks += [("factor", lo + 1, hi + 1) for lo, hi in par.chunks(NF, 32)]
     tasks += [("bigfactor",)]
     tasks += [("pred", lo, hi) for lo, hi in par.chunks(len(texts), 128)]
+    _HTEXTS[:] = X.termsums(2, ["2", "x", "3x", "x^2", "3x^2", "x * x", "y", "2y"], ["+", "*"]) + X.flat_chains(3, ["x", "3x^2", "x * x", "2"], ("+",)) \
+        + ["3x^2 + x * x", "x * x + 3x^2", "2x + x * 3", "(1 + 2) * x + 4x", "x^(1 + 1) + 3x^2"]
+    tasks += [("history", lo, hi) for lo, hi in par.chunks(len(_HTEXTS), 48)]
     k = seed % len(tasks)
     tasks = tasks[k:] + tasks[:k]
     acc = merge_all(par.pmap(_work, tasks))
@@ -310,7 +401,7 @@ def run(tier, seed):
                 "non-equation tree must not raise. distinct_nontrivial = multisets with two different terms + triples + predicate trees",
         "exhaustive": True,
         "multisets": acc.n["multisets"], "triples": acc.n["triples"], "pairs": acc.n["pairs"], "factor_tables": acc.n["factor_tables"],
-        "predicate_trees": acc.n["predicate_trees"],
+        "predicate_trees": acc.n["predicate_trees"], "predicate_history_texts": acc.n["predicate_history_texts"],
     }
     return acc, cov, ["triples compared modulo 'absent coefficient == 1', the normalisation make_term documents",
                       "natural-order triples only: an exponent without a variable is not a term"]
@@ -327,6 +418,8 @@ def replay(case):
         return [(a + "|negated", d) for a, d in check_negated_forms()]
     if k == "pair":
         return [(f"{a}|{case['a']}|{case['b']}", d) for a, d in check_like_relation(case["a"], case["b"])]
+    if k == "history":
+        return check_predicates_after_rewrites(case["text"])
     if k == "factor":
         return [(f"{a}|n={case['n']}", d) for a, d in check_factor(case["n"])]
     if k == "bigfactor":
